@@ -2,6 +2,10 @@ class MalToolboxException(Exception):
     """Base exception for all other maltoolbox exceptions to inherit from."""
     pass
 
+class MalCompilerError(MalToolboxException):
+    """The MAL source does not conform to the MAL grammar."""
+    pass
+
 class LanguageGraphException(MalToolboxException):
     """Base exception for all language-graph related exceptions."""
     pass
